@@ -269,7 +269,63 @@ def search(chk: common.Check, rng, n: int, tier: str):  # noqa: C901, PLR0912, P
     hard, hinfo = C11_exact.hardening_oracle(chk, rng, tier)
     chk.info("hardening_oracle", hinfo)
     bad += hard
+    # round 7: every clause through every generated-code route and mass instantiation
+    from tools.search import C11_routes
+
+    if _ROUTE_SWEEP.get("key") != (tier, id(chk)):
+        _route_sweep(chk, rng, tier)
+    rbad, rinfo, _ = C11_routes.routes_oracle(chk, _ROUTE_SWEEP["records"], _ROUTE_SWEEP["problems"])
+    rbad += C11_routes.exact_zero_cases()
+    chk.info("routes_oracle", rinfo)
+    if rbad:
+        chk.sample({"routes_oracle_first_failure": rbad[0]})
+    bad += rbad
     return bad
+
+
+# ------------------------------------------------------------------------------ tie on every generated-code route
+
+_ROUTE_SWEEP: dict = {}
+
+
+def _route_sweep(chk, rng, tier):
+    from tools.search import C11_routes
+
+    records, problems = C11_routes.sweep(rng, tier)
+    _ROUTE_SWEEP.update(key=(tier, id(chk)), records=records, problems=problems)
+    chk.info("route_sweep", {"records": len(records), "notes": [p["note"] for p in problems if "note" in p][:5],
+                             "instantiation_kinds": sorted({r["kind"] for r in records}),
+                             "routes": sorted({k for r in records for k in r["values"]})})
+    eq = next((r for r in records if r["name"] == "PhaseSpaceFactorComplex" and r["kind"] == "equal-symbol"), None)
+    if eq is not None:
+        chk.sample({"pycode of PhaseSpaceFactorComplex(s, m, m).doit()": eq["pycode"]})
+    return records
+
+
+def route_tie_post(chk, ctx):
+    """The Lean Float/CF twin of every regenerated definition vs the real code on EVERY generated-code
+    route (numpy float/complex scalars and arrays, "math" floats/ints/complex, cse off/on, pycode exec,
+    subs+evalf) and every mass instantiation (symbolic, equal symbol, zero, numbers before/after doit,
+    compound s and masses) at the same (s, m1, m2)."""
+    from tools.search import C11_routes
+    from tools.translate import core
+
+    records = _route_sweep(chk, ctx["rng"], ctx["tier"])
+    pts = sorted({(r["name"], r["s"], r["a"], r["b"]) for r in records})
+    lines = [" ".join([nm, *(str(core.float_bits(float(v))) for v in (sv, a, b))]) for nm, sv, a, b in pts]
+    out = common.lean_run("Ampverif/GenFloat/C11.lean", "\n".join(lines) + "\n").strip().split("\n")
+    if len(out) != len(pts) or "bad-op" in out:
+        chk.broken_correspondence("route-tie", f"driver returned {len(out)} lines for {len(pts)} requests")
+        return
+    lean_values = {}
+    for key, o in zip(pts, out):
+        lv = [core.bits_float(int(x)) for x in o.split()]
+        lean_values[key] = complex(lv[0], lv[1] if len(lv) > 1 else 0.0)
+    chk.coverage["obligations"] += 1
+    info = C11_routes.route_tie(chk, records, lean_values)
+    chk.info("route_tie", info)
+    if info["mismatches"] == 0 and info["compared"] > 0:
+        chk.coverage["discharged"] += 1
 
 
 # ------------------------------------------------------------------------------ float64 accuracy of the lambdified code
@@ -423,6 +479,7 @@ PROP = X.TypedT1Property(
     n_search={"quick": 150, "thorough": 4000},
     expected_facts={"PhaseSpaceFactorAbs_is_real_valued": True},
     signature_of=signature_of,
+    post=route_tie_post,
     trusted=("principal branches: Mathlib's Complex.log / cpow 1/2 model numpy's and mpmath's principal sqrt/log "
              "(agreement checked numerically on every run, incl. negative s and both thresholds)",),
 )
@@ -455,6 +512,13 @@ MANIFEST = {
         "lambdified variant against its own 50-digit value on a grid with mass ratios 1..1e8 (incl. m1=1000, m2=1e-5) near, between, above, "
         "below the thresholds and at negative s: |error| <= 64 * 2^-53 * (first-order running error bound of the documented formula, "
         "computed per point); the worst error/bound ratio of the tree under test is recorded per variant in the evidence (clean tree: "
-        "<= 1.7 over 150 000 evaluations), so an algebraically identical but cancelling rewrite is reported with a concrete point. A hardening oracle (tools/search/C11_exact.py) checks on every run: numbers vs symbols for every public callable incl. equal/zero masses and s exactly at the thresholds, the Piecewise branches exactly on their boundaries, ComplexSqrt on numbers and on compound arguments in generated numpy code (cse off/on, real and complex inputs, folded vs unfolded), name= defaults. ComplexSqrt._pythoncode (modules=\"math\") on sum arguments is an evidence-only probe (repaired in /repo by 1aeaf5e and judged by C14; no C11 verdict)."
+        "<= 1.7 over 150 000 evaluations), so an algebraically identical but cancelling rewrite is reported with a concrete point. A hardening oracle (tools/search/C11_exact.py) checks on every run: numbers vs symbols for every public callable incl. equal/zero masses and s exactly at the thresholds, the Piecewise branches exactly on their boundaries, ComplexSqrt on numbers and on compound arguments in generated numpy code (cse off/on, real and complex inputs, folded vs unfolded), name= defaults. ComplexSqrt._pythoncode (modules=\"math\") on sum arguments is judged like every other argument since round 7 (the defect of the pinned tree was repaired by 1aeaf5e). "
+        "Round 7 (tools/search/C11_routes.py): the statement is about VALUES, so the tie and the oracle run over every generated-code route — lambdify numpy (python floats, complex s, float64 and "
+        "complex128 arrays) and \"math\" (floats, ints, complex s), cse off/on, exec of sympy.pycode, subs+evalf, xreplace+N — and every mass instantiation: X(s,m1,m2), equal symbol X(s,m,m) (q² collapses "
+        "to the sum s/4-m²), X(s,m1,0), X(s,0,0), Float/Rational numbers before doit and substituted after doit, compound s=s1+s2 and m=ma+mb (also equal compound masses), masses equal/unequal/dyadic/"
+        "integer/zero, s negative, below, between, above. (a) route_tie: the Lean Float/CF twin of the regenerated definition vs the value of each route at the same (s,m1,m2) (1e-9; signed-zero regions "
+        "excluded as above); (b) routes_oracle: Re rho_X = 2q/sqrt(s), rho_complex = i rho_abs, rho_eq = rho_CM, q² textbook value and exact zeros on each route, plus: a (class, instantiation, route, region) "
+        "combination listed in corpus/C11/route_support.json (finite on the tree the check was built on, seeds 0-7) that now raises or is not finite is a failing input. The python/math source is NOT parsed "
+        "into Lean (no `code = definition` theorem for the scalar printer; the equal-mass instances are covered by the existing theorems, which hold for all real m1, m2 incl. m1 = m2, and by this executed tie)."
     ),
 }
